@@ -175,6 +175,7 @@ const (
 // Env is a signing environment: one stack over synthetic accounts, plus the monitors
 // shared by the signing properties.
 type Env struct {
+	Wire    *WireRig // non-nil: requests can be issued with ViaWire to a real daemon
 	Run     *evid.Run
 	Stack   *rig.Stack
 	Synth   *rig.SynthFetcher
@@ -336,6 +337,9 @@ func pbAttReq(c *AttCase) *pb.SignBeaconAttestationRequest {
 
 // SignAtt issues one attestation request.
 func (e *Env) SignAtt(via Via, c *AttCase) (core.Result, []byte) {
+	if via == ViaWire {
+		return e.wireAtt(c)
+	}
 	e.register(c.SigningRoot(), pendingReq{kind: "att", pub: c.Key.Pub48(), src: c.Data.Source.Epoch, tgt: c.Data.Target.Epoch})
 	if via == ViaHandler {
 		req := roundTrip(pbAttReq(c), &pb.SignBeaconAttestationRequest{})
@@ -352,6 +356,9 @@ func (e *Env) SignAtt(via Via, c *AttCase) (core.Result, []byte) {
 
 // SignAtts issues a batch of attestation requests.
 func (e *Env) SignAtts(via Via, cs []*AttCase) ([]core.Result, [][]byte) {
+	if via == ViaWire {
+		return e.wireAtts(cs)
+	}
 	for _, c := range cs {
 		e.register(c.SigningRoot(), pendingReq{kind: "att", pub: c.Key.Pub48(), src: c.Data.Source.Epoch, tgt: c.Data.Target.Epoch})
 	}
@@ -386,6 +393,9 @@ func (e *Env) SignAtts(via Via, cs []*AttCase) ([]core.Result, [][]byte) {
 
 // SignProp issues one proposal request.
 func (e *Env) SignProp(via Via, c *PropCase) (core.Result, []byte) {
+	if via == ViaWire {
+		return e.wireProp(c)
+	}
 	e.register(c.SigningRoot(), pendingReq{kind: "prop", pub: c.Key.Pub48(), slot: c.Data.Slot})
 	if via == ViaHandler {
 		req := &pb.SignBeaconProposalRequest{Domain: c.Data.Domain, Data: &pb.BeaconBlockHeader{
@@ -421,6 +431,9 @@ func pbGenReq(c *GenCase) *pb.SignRequest {
 
 // SignGen issues one generic request.
 func (e *Env) SignGen(via Via, c *GenCase) (core.Result, []byte) {
+	if via == ViaWire {
+		return e.wireGen(c)
+	}
 	e.register(c.SigningRoot(), pendingReq{kind: "gen", pub: c.Key.Pub48()})
 	if via == ViaHandler {
 		req := roundTrip(pbGenReq(c), &pb.SignRequest{})
@@ -437,6 +450,9 @@ func (e *Env) SignGen(via Via, c *GenCase) (core.Result, []byte) {
 
 // SignGens issues a multisign request.
 func (e *Env) SignGens(via Via, cs []*GenCase) ([]core.Result, [][]byte) {
+	if via == ViaWire {
+		return e.wireGens(cs)
+	}
 	for _, c := range cs {
 		e.register(c.SigningRoot(), pendingReq{kind: "gen", pub: c.Key.Pub48()})
 	}
